@@ -14,6 +14,8 @@ this is also the stage that searches the implementation for a concrete failing i
 """
 import importlib.util  # noqa: F401
 import itertools
+import re
+import time
 
 import numpy as np
 
@@ -150,7 +152,9 @@ def run(ctx):
 
 def enum_stage(ctx, runner):
     """Exhaustive small-system exploration of the real REPEX_state (py/c05_enum.py)."""
+    t0 = time.time()
     cases, results = E.run_all(ctx.tier, ctx.rng)
+    wall = round(time.time() - t0, 1)
     keys = ("runs", "picks", "zero_swaps", "states", "leaves", "steps", "step_swaps", "step_nontrivial", "scratch_checks")
     agg = {k: 0 for k in keys}
     agg["max_decisions"] = 0
@@ -177,14 +181,16 @@ def enum_stage(ctx, runner):
     seen = set()
     for f in fails:
         # one report per kind of failure (the smallest input first), at most four
-        sig = (f["family"], f["problems"][0][:40])
+        sig = (f["family"], f["problems"][0][:30])
         if sig in seen or len(seen) >= 4:
             continue
         seen.add(sig)
         what = ("start-up of the workers" if f["family"] == "startup" else "one completed step")
-        ctx.violation(f"C05 statement fails on the implementation ({what}, all random outcomes enumerated): {f['problems'][0][:230]} "
-                      f"|| input: {E.describe(f['case'])[:150]} || decisions: {' / '.join(f['decisions'])}",
-                      {"enum": f}, found_input=True)
+        c = f["case"]
+        short = " / ".join(re.sub(r"\s*\[option.*$", "", re.sub(r" \(slot [^)]*\)", "", d)).replace("zero-swap ", "") for d in f["decisions"])
+        ctx.violation(f"C05 statement fails on the implementation ({what}, exhaustive): {f['problems'][0][:150]} || input: {c['n_ens']} ensembles, "
+                      f"{c['workers']} worker(s), initial paths of [0+].. reach {c['reach']} (weights {c['kind']}); decisions: {short}",
+                      {"enum": f, "input": E.describe(c)}, found_input=True)
     # lock-step of every sort_trajstate call of the step family with the extracted model
     reqs = sorted(sorts)
     outs = runner.run(reqs) if reqs else []
@@ -195,7 +201,7 @@ def enum_stage(ctx, runner):
             nbad += 1
             ctx.violation(f"sort_trajstate inside treat_output: model {out[:90]} vs implementation {impl[:90]} on {req[:120]}",
                           {"sort_request": req, "model": out, "impl": impl, "enum_case": case}, found_input=False)
-    ctx.cov["correspondence"]["enum"] = {"cases": len(cases), **agg, "sort_lockstep_states": len(reqs)}
+    ctx.cov["correspondence"]["enum"] = {"cases": len(cases), **agg, "sort_lockstep_states": len(reqs), "wall_s": wall}
     ctx.cov["rule"] += ("; exhaustive exploration: one evaluation per pick of the real start-up (all outcomes of choice()/random() with non-zero "
                         "probability) and per completed step (treat_output with every outcome), each judged by the C05 oracle")
     ctx.sample({"enum_case": cases[len(cases) // 2]})
